@@ -29,12 +29,17 @@ def check(c):
     uni = c.path("c01universe.json")
     cases2 = c.path("c01cases_small.ndjson")
     uni2 = c.path("c01universe_small.json")
+    cases3 = c.path("c01cases_ports.ndjson")
+    uni3 = c.path("c01universe_ports.json")
     thunks = [
         lambda: c.model_check("RadixMC", RADIX_CFG % dict(bug="none", maxlen=maxlen, dump="TRUE", invs=INVS, uni="full"),
                               tag="RadixMC", env={"OUT_FILE": cases, "UNIVERSE_FILE": uni}, timeout=3000, workers=8),
         # the 32-pattern sub-universe, one insertion deeper (some defects need three or four interacting patterns)
         lambda: c.model_check("RadixMC", RADIX_CFG % dict(bug="none", maxlen=maxlen + 1, dump="TRUE", invs="Refines WellFormed ElemsSubset", uni="small"),
                               tag="RadixMC_small", env={"OUT_FILE": cases2, "UNIVERSE_FILE": uni2}, timeout=3000, workers=8),
+        # 48 patterns over 2 hosts x 3 schemes x ports none / 1 / 2 / *: nodes with several schemes and several explicit ports
+        lambda: c.model_check("RadixMC", RADIX_CFG % dict(bug="none", maxlen=maxlen, dump="TRUE", invs="Refines WellFormed ElemsSubset", uni="ports"),
+                              tag="RadixMC_ports", env={"OUT_FILE": cases3, "UNIVERSE_FILE": uni3}, timeout=3000, workers=8),
     ]
     for bug in TWINS:
         thunks.append(lambda bug=bug: c.negative_twin("RadixMC", RADIX_CFG % dict(bug=bug, maxlen=2, dump="FALSE", invs=INVS, uni="full"),
@@ -58,9 +63,10 @@ def check(c):
     s = gen(uni, cases, summ)
     summ2 = c.path("c01gen_small.json")
     s2 = gen(uni2, cases2, summ2)
-    s["mismatches"] = (s["mismatches"] or []) + (s2["mismatches"] or [])
+    s3 = gen(uni3, cases3, c.path("c01gen_ports.json"))
+    s["mismatches"] = (s["mismatches"] or []) + (s2["mismatches"] or []) + (s3["mismatches"] or [])
     for f in ("evaluations", "nontrivial", "rejected", "elems_drift", "cases"):
-        s[f] += s2[f]
+        s[f] += s2[f] + s3[f]
     if s["evaluations"] == 0 or s["rejected"] > 0:
         # by-construction valid patterns were rejected: the replay is (partly) vacuous
         if s["evaluations"] == 0:
@@ -114,7 +120,7 @@ def check(c):
             c.drift.append("random driver: %d by-construction-valid lists rejected" % r["rejected"])
         done += r["probes"]
         k += 1
-    c.cov["rule"] = ("G: every insertion sequence of <= %d patterns over the 72-pattern universe of RadixMC.tla and every sequence one longer over its 32-pattern sub-universe "
+    c.cov["rule"] = ("G: every insertion sequence of <= %d patterns over the 72-pattern universe of RadixMC.tla and every sequence one longer over a 40-pattern sub-universe (5 hosts) and every sequence of the same length over a 48-pattern one (3 schemes, ports none/1/2/*) "
                      "(hosts sharing suffixes at non-label boundaries) x 84 probe origins, replayed through "
                      "NewMiddleware + GET + preflight with seeded byte/scheme/port concretisation; non-trivial = "
                      ">= 2 distinct patterns. T: seeded realistic lists (1-30 patterns, families sharing suffixes, "
